@@ -131,3 +131,23 @@ Example C12_utf8_example :
   utf8_lex false [47; 192; 175; 239; 188; 143; 237; 160; 128; 226; 130]
   = [UT_ascii 47; UT_seq 2 47; UT_seq 3 65295; UT_bad; UT_bad; UT_bad; UT_trunc].
 Proof. vm_compute. reflexivity. Qed.
+
+(* ==== HISTORY LEVEL (PUriHist*.v): for a request of the wire grammar whose target is u, delivered in ANY chunking / folding: the path the caller sees,
+   t.parsed_uri.path, is pth_pipeline (the decode + normalise pipeline of the theorems above) applied to the raw path component of u under the connection's
+   path-decoder configuration (an ARBITRARY decoder record: every personality switch free); it is no longer than the raw path, has no "." / ".." segment, is a
+   fixed point of the normaliser; the six path-only indicator bits on the transaction are EXACTLY those the pipeline raises, the three shared with the generic
+   decoder are at least the pipeline's (exactly those, when the target has no authority and no fragment); query kept raw, scheme lower-cased. ==== *)
+Require Import Htp.Model.Base Htp.Model.MBstr Htp.Model.MConnTypes Htp.Model.MTxCommon Htp.Model.MReqLine Htp.Model.MReqUri Htp.Model.MTxReq.
+Require Import Htp.Model.MReq Htp.Model.MRes Htp.Model.MConnp Htp.Model.MUri Htp.Model.MPath.
+Require Import Htp.Spec.SWire Htp.Spec.SUri Htp.Spec.SPath Htp.Proof.PUri Htp.Proof.PPathDot Htp.Proof.PPathLen.
+Require Import Htp.Proof.PWire Htp.Proof.PWireHdr Htp.Proof.PWireBlock Htp.Proof.PWireConn Htp.Proof.PWireExch.
+Require Import Htp.Proof.PWireRun Htp.Proof.PWirePres Htp.Proof.PWireGlue Htp.Proof.PSeg Htp.Proof.PSegLine Htp.Proof.PSegHdr Htp.Proof.PSegGen Htp.Proof.PSegRun Htp.Proof.PSegFold Htp.Proof.PSegPipe.
+Require Import Htp.Proof.PUriHist Htp.Proof.PUriHistTx.
+Require Import Htp.Proof.PUriHistThm.
+Theorem C12_at_history_level : forall cb g r (cuts : list (list bytes)) (chunks : list bytes),
+  wr_all_ok cb -> g_allow_space_uri g = false -> wr_request_ok r = true -> sg_cuts_ok r cuts = true -> sg_fold_fits g r cuts = true ->
+  Forall (fun x => x <> []) chunks -> concat chunks = sg_fold_wire r cuts ->
+  exists t, c_txs (fst (cp_run cb g connp_new (OpOpen :: map OpReqData chunks))) = [Some t] /\
+            uh_c13 (wq_uri r) t /\ uh_c12 g (wq_uri r) t.
+Proof. exact uh_request_uri_fold_chunking. Qed.
+Print Assumptions C12_at_history_level.
